@@ -1,4 +1,5 @@
 import Cdecao.Model.Cdedb
+import Cdecao.Proofs.ImportConsistent
 /-! # C11 — the ignore options leave ignored data untouched and reserve its places
 
 Reader side (`CD.readRegs`, `CD.adapt`): an ignored registration is never added to the
@@ -32,4 +33,94 @@ theorem C11_fixed_written (courses : List Course) (a : List (Option Nat)) (c : C
   simp only [List.mem_map]
   exact ⟨(c, i), h, by simp [hf]⟩
 
+/-! ## the ignore options against the export (proofs in `Cdecao/Proofs/ImportConsistent.lean`;
+    vocabulary as in `Props/C05.lean`)
+
+`ignoredCount o partId trackId rdata cid true / false` is, with `--ignore-assigned`, the number of
+registrations of the export that are participants of the selected part, have `course_id = cid` in
+the selected track and do / do not instruct `cid` — the registrations the reader ignored for that
+course (`CD.Link.invCount_eq` ties it to `invInstr` / `invAtt` of `readRegs_invisible`); it is 0
+without the option. `NodupKeys` (distinct course keys) is a hypothesis, see `Props/C05.lean`. -/
+
+open N2.G in
+/-- **C11, assembled.** For the problem read from an export and any assignment satisfying the hard
+    constraints:
+    * (a) an ignored registration is never named: every registration entry of the import file is a
+      participant of the selected part whose `course_id` in the selected track, with
+      `--ignore-assigned`, is absent/null or names a course that is not kept — in particular it is
+      not the id of any course of the import file;
+    * (f) a course with ignored pre-assigned people is fixed in the problem, hence takes place in the
+      sense of `HardOK` and is written as taking place;
+    * (d) the places of the ignored attendees are reserved: a course written as taking place meets
+      the export's `min_size` counting new and ignored attendees, and either gets no new attendee or
+      respects the export's `max_size` counting both;
+    * (f) with `--ignore-cancelled`, every course entry of the import file is a course of the export
+      whose segment in the selected track is `true` (`CourseNamed`), and a course of the export
+      that is cancelled in the selected track appears neither in the courses object nor in the
+      registrations object of the import file. -/
+theorem C11_consistent (data : JS.J) (o : Opts) (parts : List Part) (courses : List Course)
+    (amb : Ambience) (al : List (Option Nat))
+    (hread : CD.read data o = .ok (parts, courses, amb))
+    (hlen : al.length = parts.length)
+    (hok : HardOK (toInst parts courses) (fun p => al.getD p none))
+    (hkeys : NodupKeys data) :
+    ∃ partId trackId cdata rdata, Selected data o amb partId trackId cdata rdata ∧
+      -- (a)
+      (∀ rid cid, (rid, cid) ∈ writeRegs parts courses al →
+        ∃ rkv ∈ rdata, RegNamed o partId trackId cdata rkv rid ∧
+          (o.ignoreAssigned = true → ∀ cid' b, (cid', b) ∈ writeCourses courses al →
+            regCourseId rkv.2 trackId ≠ some cid')) ∧
+      -- (f) fixed, (d) sizes
+      (∀ c cid b, (writeCourses courses al)[c]? = some (cid, b) →
+        ∃ ckv ∈ cdata, CourseNamed o trackId ckv cid ∧
+          (ignoredCount o partId trackId rdata cid true +
+              ignoredCount o partId trackId rdata cid false ≠ 0 →
+            ((toInst parts courses).course c).fixed = true ∧
+            takesPlace (toInst parts courses) (fun p => al.getD p none) c ∧ b = true) ∧
+          (b = true → courseMinSize ckv.2 ≤
+            attendees (toInst parts courses) (fun p => al.getD p none) c +
+              ignoredCount o partId trackId rdata cid false) ∧
+          (attendees (toInst parts courses) (fun p => al.getD p none) c = 0 ∨
+            attendees (toInst parts courses) (fun p => al.getD p none) c +
+              ignoredCount o partId trackId rdata cid false ≤ courseMaxSize ckv.2)) ∧
+      -- (f) cancelled courses
+      (o.ignoreCancelled = true → ∀ ckv ∈ cdata, courseSegment ckv.2 trackId = some false →
+        ∀ cid, JS.parseNat ckv.1 = some cid →
+          (∀ b, (cid, b) ∉ writeCourses courses al) ∧
+          (∀ rid, (rid, cid) ∉ writeRegs parts courses al)) := by
+  obtain ⟨partId, trackId, cdata, rdata, co, L⟩ := read_link data o parts courses amb hread
+  have hn : (courseIds cdata).Nodup := hkeys cdata L.hcdata
+  refine ⟨partId, trackId, cdata, rdata, L.selected, ?_, ?_, ?_⟩
+  · intro rid cid h
+    obtain ⟨rkv, hm, _, _, hreg, _⟩ := L.regs_entry al hok rid cid h
+    exact ⟨rkv, hm, hreg, fun hia cid' b hw => L.named_not_preassigned hn al rkv rid hreg hia cid' b hw⟩
+  · intro c cid b h
+    obtain ⟨ckv, hm, hnamed, h1, h2, h3, h4⟩ := L.courses_entry al hlen hok c cid b h
+    have hcc : ∃ cc, courses[c]? = some cc ∧ cc.dbid = cid := by
+      rw [writeCourses_getElem?] at h
+      cases hcc : courses[c]? with
+      | none => rw [hcc] at h; cases h
+      | some cc =>
+        rw [hcc] at h
+        simp only [Option.map_some, Option.some.injEq, Prod.mk.injEq] at h
+        exact ⟨cc, rfl, h.1⟩
+    obtain ⟨cc, hcc, rfl⟩ := hcc
+    have hfix := L.fixed_of_invisible c cc hcc
+    rw [L.invCount_eq_ignoredCount hn c cc hcc false] at h2 h3 h4 hfix
+    rw [L.invCount_eq_ignoredCount hn c cc hcc true] at h4 hfix
+    exact ⟨ckv, hm, hnamed, fun hne => ⟨hfix hne, h1.1 (h4 hne), h4 hne⟩, h2, h3⟩
+  · intro hic ckv hm hseg cid hk
+    exact L.cancelled_untouched hn hic al hok ckv hm cid hk hseg
+
+/-- a concrete instance of the hypotheses (`CD.Ex`, see `Props/C05.lean`): registration 101 is
+    pre-assigned to course 7 and ignored, course 8 is cancelled and ignored -/
+example := C11_consistent Ex.doc Ex.opts Ex.parts Ex.courses Ex.amb Ex.al Ex.read_eq rfl Ex.hardOK
+  Ex.nodupKeys
+
+/-- on that instance the reserved place is visible: one ignored attendee of course 7 -/
+example : ignoredCount Ex.opts 1 3 Ex.rdata 7 false = 1 ∧ ignoredCount Ex.opts 1 3 Ex.rdata 7 true = 0 := by
+  decide
+
 end Props
+
+#print axioms Props.C11_consistent
